@@ -121,6 +121,7 @@ def _attach_contract(state: Dict[str, Any]):
             s_out = C._outcome_raise(outcome.exception)
         else:
             s_out = ("ok", outcome.value)
+        state["active"] = False  # compare() may evaluate pipeline prefixes on a fresh handle
         status, detail = compare(state["spec"], state["p_out"], s_out, state["info"], state["pc"])
         state["status"] = status
         state["detail"] = detail
